@@ -7,7 +7,7 @@ def jobs(tier):
     out = []
     # header decoders on ARBITRARY bytes (no validity assumption beyond the stated size bounds), incl. extreme count fields
     for j in _c04.dec_jobs(tier, prefix="C19.a", valid_only=False):
-        if ".var." in j.oid or (".name" in j.oid and ".pos0" in j.oid) or (".uint." in j.oid and ".chunk8." in j.oid):
+        if ".var." in j.oid or (".name" in j.oid and (".pos0" in j.oid or ".pos4" in j.oid) and (tier != "quick" or ".cdf5." in j.oid)) or (".uint." in j.oid and ".chunk8." in j.oid):
             j.desc = "memory safety + clean failure: " + j.desc
             out.append(j)
     # size computations on arbitrary decoded values: no overflow / division by zero in the enddef/open-time size checks
